@@ -44,14 +44,18 @@ OpEvents ==
   \cup {[op |-> "collect", r |-> r, m0 |-> m, m1 |-> AllAmt] : r \in RangesDef, m \in {AllAmt, D(1, 100)}}
   \cup {[op |-> "buy", a |-> a] : a \in {D(1, 2), D(0, 1), D(100, 1)}}
   \cup {[op |-> "sell", a |-> a] : a \in {D(1, 2), D(11, 1)}}
+  \cup {[op |-> o, r |-> r] : o \in {"lend", "unlend"}, r \in RangesDef}          \* transfer_position_out / _in (a vault borrows the position)
 FeeEvents ==
        {[op |-> "add", r |-> r, b |-> D(1, 1), q |-> D(2000, 1)] : r \in RangesDef}
   \cup {[op |-> "collect", r |-> <<C + 50, C + 150>>, m0 |-> AllAmt, m1 |-> AllAmt], [op |-> "buy", a |-> D(1, 2)],
-        [op |-> "remove", r |-> <<C - 50, C + 50>>, liq |-> <<0, 0, 0, 1>>, collect |-> FALSE]}
-Events(s) == (IF Focus = 1 THEN FeeEvents ELSE OpEvents)
+        [op |-> "remove", r |-> <<C - 50, C + 50>>, liq |-> <<0, 0, 0, 1>>, collect |-> FALSE],
+        [op |-> "lend", r |-> <<C - 50, C + 50>>], [op |-> "unlend", r |-> <<C - 50, C + 50>>]}
+(* the owner does not operate on a position while it is lent (on chain the NFT belongs to the borrower) *)
+OnLent(s, ev) == ev.op \in {"add", "remove", "collect"} /\ s.pos[ev.r].out
+Events(s) == {ev \in (IF Focus = 1 THEN FeeEvents ELSE OpEvents) : ~OnLent(s, ev)}
              \cup {[op |-> "endbar", next |-> n] : n \in DOMAIN RowSeq}
 
-MirEv(ev) == CASE ev.op \in {"add", "remove"} -> [ev EXCEPT !.r = Mir(@)]
+MirEv(ev) == CASE ev.op \in {"add", "remove", "lend", "unlend"} -> [ev EXCEPT !.r = Mir(@)]
                [] ev.op = "collect" -> [ev EXCEPT !.r = Mir(@), !.m0 = ev.m1, !.m1 = ev.m0]
                [] OTHER -> ev
 
